@@ -1057,6 +1057,56 @@ theorem coerceFields_spec (c : CEnv J K V) : ∀ (fs : List (K × Ann)) (d : Lis
           · exact ⟨a, v, v', hka, hc⟩
           · exact h5 l h
 
+/-- With distinct field names (pydantic's `model_fields` is a dict) every value is converted at most once. -/
+theorem coerceFields_once (c : CEnv J K V) : ∀ (fs : List (K × Ann)) (d : List (K × V)) (ls : List (K × Conv)),
+    (fs.map (·.1)).Nodup →
+    ∀ e ∈ (coerceFields c fs d ls).1, ∃ v, (e.1, v) ∈ d ∧
+      (e.2 = v ∨ ∃ a cv, (e.1, a) ∈ fs ∧ convert c a v = some (e.2, cv)) := by
+  intro fs
+  induction fs with
+  | nil => intro d ls _ e he; exact ⟨e.2, he, Or.inl rfl⟩
+  | cons f fs ih =>
+    intro d ls hnd e he
+    obtain ⟨k, a⟩ := f
+    have hnd' : (fs.map (·.1)).Nodup := (List.nodup_cons.mp hnd).2
+    have hk : ∀ a', (k, a') ∉ fs := by
+      intro a' hmem
+      exact (List.nodup_cons.mp hnd).1 (List.mem_map.mpr ⟨(k, a'), hmem, rfl⟩)
+    cases hl : lookupKey d k with
+    | none =>
+      rw [show coerceFields c ((k, a) :: fs) d ls = coerceFields c fs d ls from by simp [coerceFields, hl]] at he
+      obtain ⟨v, hv, h⟩ := ih d ls hnd' e he
+      refine ⟨v, hv, h.imp id ?_⟩
+      rintro ⟨a', cv, hm, hc⟩
+      exact ⟨a', cv, List.mem_cons_of_mem _ hm, hc⟩
+    | some v0 =>
+      cases hc : convert c a v0 with
+      | none =>
+        rw [show coerceFields c ((k, a) :: fs) d ls = coerceFields c fs d ls from by
+          simp [coerceFields, hl, hc]] at he
+        obtain ⟨v, hv, h⟩ := ih d ls hnd' e he
+        refine ⟨v, hv, h.imp id ?_⟩
+        rintro ⟨a', cv, hm, hc'⟩
+        exact ⟨a', cv, List.mem_cons_of_mem _ hm, hc'⟩
+      | some r =>
+        obtain ⟨v', cv⟩ := r
+        rw [show coerceFields c ((k, a) :: fs) d ls = coerceFields c fs (setKey d k v') (ls ++ [(k, cv)]) from by
+          simp [coerceFields, hl, hc]] at he
+        obtain ⟨w, hw, h⟩ := ih (setKey d k v') (ls ++ [(k, cv)]) hnd' e he
+        rcases mem_setKey d k v' (e.1, w) hw with hin | ⟨heq, _⟩
+        · refine ⟨w, hin, h.imp id ?_⟩
+          rintro ⟨a', cv', hm, hc'⟩
+          exact ⟨a', cv', List.mem_cons_of_mem _ hm, hc'⟩
+        · have hek : e.1 = k := by simpa using congrArg Prod.fst heq
+          have hwv : w = v' := by simpa using congrArg Prod.snd heq
+          subst hwv
+          refine ⟨v0, by rw [hek]; exact lookupKey_mem d k v0 hl, ?_⟩
+          rcases h with h | ⟨a', cv', hm, _⟩
+          · right
+            exact ⟨a, cv, by rw [hek]; exact List.mem_cons_self .., by rw [h]; exact hc⟩
+          · rw [hek] at hm
+            exact absurd hm (hk a')
+
 /-- Complete description of `_coerce_types_tracked`: a list is returned untouched; a scalar makes `dict()` raise;
     for a dict the result has the same keys in the same order, every value is the old value of that key or a
     table conversion of it that the schema's annotation for that key allows, and every label names a conversion
